@@ -152,26 +152,31 @@ ReplaceFwd(b, k, c) ==
                     ELSE [ok |-> TRUE, pre |-> << >>, a |-> b.a, lo |-> Upd(lo), hi |-> Upd(hi)]
   IN LocalFwd(b.p, b.a, FN, FB, c)
 
-\* Wrap block b into a fresh "for" node (children under wattr = "body")
-WrapTree(root, b) ==
+\* Wrap block b into a fresh node of kind `kind` (children under attribute wa); the exhaustive model
+\* uses "for"/"body", trace validation (CursorEditTrace) the wrapper the code actually built
+WrapTreeK(root, b, kind, wa, other) ==
   LET ch == Attr(NodeAt(root, b.p), b.a)
-      w == [lab |-> MaxLab(root) + 1, kind |-> "for",
-            body |-> SubSeq(ch, b.lo + 1, b.hi), orelse |-> << >>]
+      inner == SubSeq(ch, b.lo + 1, b.hi)
+      w == [lab |-> MaxLab(root) + 1, kind |-> kind,
+            body |-> IF wa = "body" THEN inner ELSE other,      \* (`other`: what the wrapper's constructor
+            orelse |-> IF wa = "orelse" THEN inner ELSE other]  \*  puts under its second attribute)
   IN Splice(root, b.p, b.a, b.lo, b.hi, <<w>>)
-WrapFwd(b, c) ==
+WrapTree(root, b) == WrapTreeK(root, b, "for", "body", << >>)
+WrapFwdA(b, wa, c) ==
   LET nd == (b.hi - b.lo) - 1
       FN(i) == IF i >= b.hi THEN [ok |-> TRUE, v |-> << <<b.a, i - nd>> >>]
-               ELSE IF i >= b.lo THEN [ok |-> TRUE, v |-> << <<b.a, b.lo>>, <<"body", i - b.lo>> >>]
+               ELSE IF i >= b.lo THEN [ok |-> TRUE, v |-> << <<b.a, b.lo>>, <<wa, i - b.lo>> >>]
                ELSE [ok |-> TRUE, v |-> << <<b.a, i>> >>]
       FB(lo, hi) ==
         IF lo >= b.hi THEN [ok |-> TRUE, pre |-> << >>, a |-> b.a, lo |-> lo - nd, hi |-> hi - nd]
         ELSE IF hi <= b.lo THEN [ok |-> TRUE, pre |-> << >>, a |-> b.a, lo |-> lo, hi |-> hi]
         ELSE IF lo >= b.lo /\ lo < b.hi /\ hi - 1 >= b.lo /\ hi - 1 < b.hi
-             THEN [ok |-> TRUE, pre |-> << <<b.a, b.lo>> >>, a |-> "body", lo |-> lo - b.lo, hi |-> hi - b.lo]
+             THEN [ok |-> TRUE, pre |-> << <<b.a, b.lo>> >>, a |-> wa, lo |-> lo - b.lo, hi |-> hi - b.lo]
         ELSE IF b.lo >= lo /\ b.lo < hi /\ b.hi - 1 >= lo /\ b.hi - 1 < hi
              THEN [ok |-> TRUE, pre |-> << >>, a |-> b.a, lo |-> lo, hi |-> hi - (b.hi - b.lo) + 1]
         ELSE [ok |-> FALSE]
   IN LocalFwd(b.p, b.a, FN, FB, c)
+WrapFwd(b, c) == WrapFwdA(b, "body", c)
 
 
 \* ---------- move (mirrors Block._move / _forward_move) ----------
